@@ -6,6 +6,7 @@ array is a Model/Arr.lean array with the reallocation rule regenerated from /rep
 -/
 import StarsimModel.Lemmas.People
 
+set_option maxRecDepth 2000
 namespace StarsimModel.C10
 open StarsimModel.Arr StarsimModel.People
 
@@ -18,19 +19,13 @@ theorem C10_grow_covers_everything :
 
 /-! ### The invariant holds along every history -/
 
-/-- the population before anybody exists: every array freshly constructed (`extra` = all further registered states) -/
-def emptyPeople (extra : List Arr) : People :=
-  { uid := fresh .index (.num (-1)) .unset, slot := fresh .index (.num (-1)) .unset, parent := fresh .index (.num (-1)) .unset,
-    auids := [], alive := fresh .bool (.bool false) (.const (.bool true)), tiDead := fresh .float .nan .unset,
-    states := extra, ti := 0, nAlive := [], newDeaths := [] }
-
 theorem Inv_empty (extra : List Arr) (h1 : ∀ a ∈ extra, a.raw = [] ∧ a.lenUsed = 0 ∧ a.lenTot = 0)
     (h2 : ∀ a ∈ extra, ∀ us, (defaultVals a us).length = us.length) : Inv (emptyPeople extra) := by
   have wf0 : ∀ k nv d, WF 0 (fresh k nv d) := fun _ _ _ => ⟨rfl, rfl, by simp [fresh]⟩
   exact { uid := wf0 .., slot := wf0 .., parent := wf0 .., alive := wf0 .., tiDead := wf0 ..,
           states := fun a ha => ⟨(h1 a ha).2.1, by rw [(h1 a ha).2.2, (h1 a ha).1]; rfl, Nat.zero_le _⟩,
           statesDefault := h2, dense := fun u hu => absurd hu (Nat.not_lt_zero u),
-          active := by simp [emptyPeople], nodup := by simp [emptyPeople], aliveKind := ⟨rfl, rfl⟩, tiDeadDefault := rfl,
+          active := by simp [emptyPeople], nodup := by simp [emptyPeople], aliveKind := ⟨rfl, rfl⟩, tiDeadDefault := rfl, tiDeadKind := rfl,
           aliveBool := fun u hu => absurd hu (Nat.not_lt_zero u), removedDead := fun u hu => absurd hu (Nat.not_lt_zero u) }
 
 /-- every accepted operation succeeds and preserves the invariant -/
@@ -46,11 +41,6 @@ theorem step_inv (p : People) (op : Op) (inv : Inv p) (hok : OpOk p op) : stepE 
       have : stepE p .finishStep = .ok { p' with ti := p'.ti + 1 } := by simp [stepE, finishStep, h, bind, Except.bind, pure, Except.pure]
       simp only [step, this]
       exact ⟨trivial, { i with }⟩
-
-/-- a history the code accepts (stated along the run) -/
-def ValidRun : People → List Op → Prop
-  | _, [] => True
-  | p, op :: ops => OpOk p op ∧ ValidRun (step p op) ops
 
 theorem run_inv : ∀ (ops : List Op) (p : People), Inv p → ValidRun p ops → Inv (run p ops)
   | [], _, inv, _ => inv
@@ -254,19 +244,6 @@ theorem C10_multi_request (p : People) (inv : Inv p) (a b : List Nat) (ha : ∀ 
 
 /-! ### Flow accounting -/
 
-/-- the number of agents `step_die` newly kills -/
-def diedNow (p : People) : Nat := ((deathUids p).filter (fun u => (p.alive.cell u).truthy)).length
-
-/-- what `update_results` records as `new_deaths[ti]` -/
-def recordedDeaths (p : People) : Nat := count p.auids (cmpScalar p.auids p.tiDead .eq (tiVal p.ti))
-
-/-- the decidable hypothesis that excludes the defect: no active agent carries a death stamp from an *earlier* step
-    (every request was made before the death resolution of its own step, so its agent died and was removed then) -/
-def NoStaleStamp (p : People) : Bool :=
-  p.auids.all (fun u => !(cmpVal .le (p.tiDead.cell u) (tiVal p.ti)).truthy || (cmpVal .eq (p.tiDead.cell u) (tiVal p.ti)).truthy)
-
-def AllActiveAlive (p : People) : Bool := p.auids.all (fun u => (p.alive.cell u).truthy)
-
 /-- **Flow (partial).** When all active agents are alive at the start of death resolution (true after every
     `finish_step`) and no active agent carries a stamp from an earlier step, the number `update_results` records in
     `new_deaths[ti]` is exactly the number of agents that `step_die` killed in this step. -/
@@ -390,5 +367,144 @@ example :
     p.n = 5 ∧ p.auids = [2, 3] ∧ p.uid.lenTot = 5 ∧ p.nAlive = [(0, 2), (1, 2)] ∧ p.newDeaths = [(0, 1), (1, 2)] ∧
     (p.states.map (fun a => (a.lenUsed, a.lenTot))) = [(5, 5)] := by
   decide
+
+/-- **Aligned, from any population.** Starting from *any* population that satisfies the bookkeeping invariant (not only
+    from nobody), every accepted history keeps every core array and every registered state aligned with the uid space. -/
+theorem C10_aligned_from (p0 : People) (inv : Inv p0) (ops : List Op) (hv : ValidRun p0 ops) :
+    let p := run p0 ops
+    Inv p ∧ WF p.n p.uid ∧ WF p.n p.slot ∧ WF p.n p.parent ∧ WF p.n p.alive ∧ WF p.n p.tiDead ∧ (∀ a ∈ p.states, WF p.n a) ∧
+    p0.n ≤ p.n := by
+  have i := run_inv ops p0 inv hv
+  refine ⟨i, i.uid, i.slot, i.parent, i.alive, i.tiDead, i.states, ?_⟩
+  -- n never decreases along the run
+  have mono : ∀ (ops : List Op) (q : People), Inv q → ValidRun q ops → q.n ≤ (run q ops).n := by
+    intro ops
+    induction ops with
+    | nil => intro q _ _; exact Nat.le_refl _
+    | cons op ops ih =>
+        intro q iq hq
+        have h1 := (C10_dense_ids q iq).2.1 op hq.1
+        have h2 := ih (step q op) (step_inv q op iq hq.1).2 hq.2
+        simp only [run, List.foldl_cons] at h2 ⊢
+        exact Nat.le_trans h1 h2
+  exact mono ops p0 inv hv
+
+/-- **Ageing.** `update_post` adds `dt` to the age of exactly the living active agents, once each; dead, removed and
+    not-yet-created (spare capacity) entries keep their value, and the bookkeeping of the array is untouched. -/
+theorem C10_ageing (au : List Nat) (alive age : Arr) (n : Nat) (dt : Rat) (hw : WF n age) (hk : age.kind = .float)
+    (hact : ∀ u ∈ au, u < n) (hnd : au.Nodup) :
+    ∃ age', agePost au alive age dt = .ok age' ∧ WF n age' ∧ age'.kind = .float ∧
+      (∀ u, u ∈ au → (alive.cell u).truthy = true → age'.cell u = arithVal .add (age.cell u) (.num dt)) ∧
+      (∀ u, ¬ (u ∈ au ∧ (alive.cell u).truthy = true) → age'.cell u = age.cell u) := by
+  have hsub : (trueUids au alive).Sublist au := List.filter_sublist
+  have hus : ∀ u ∈ trueUids au alive, u < age.raw.length := fun u hu => by
+    have := hact u (hsub.subset hu); have := hw.le; omega
+  have hr : inRange age (trueUids au alive) = true := by
+    simp only [inRange, List.all_eq_true, decide_eq_true_eq]; exact hus
+  have hcast : castRhs age.kind (.list ((trueUids au alive).map (fun u => arithVal .add (age.cell u) (.num dt)))) =
+      some (.list ((trueUids au alive).map (fun u => arithVal .add (age.cell u) (.num dt)))) := by
+    rw [hk]; simp only [castRhs, castList_float_arith, Option.map_some]
+  obtain ⟨a', hset, hlu, hlt, hlen, _, _, hkind, hcell, _⟩ :=
+    C11.C11_set_uids codeVariant au age (trueUids au alive) _ _ hcast hr (by simp [rhsOk])
+  refine ⟨a', hset, ⟨by rw [hlu]; exact hw.used, by rw [hlt, hlen]; exact hw.tot, by rw [hlen]; exact hw.le⟩, by rw [hkind]; exact hk, ?_, ?_⟩
+  · intro u hu ht
+    have hm : u ∈ trueUids au alive := List.mem_filter.mpr ⟨hu, ht⟩
+    obtain ⟨i, hi, rfl⟩ := List.getElem_of_mem hm
+    rw [hcell]
+    have := updMany_nodup (trueUids au alive) (rhsVals (trueUids au alive).length (.list ((trueUids au alive).map (fun u => arithVal .add (age.cell u) (.num dt)))))
+      age.cell (hnd.sublist hsub) i hi (by simp [rhsVals]; exact hi)
+    rw [this]; simp [rhsVals]
+  · intro u hnot
+    rw [hcell]
+    apply updMany_not_mem
+    intro hm
+    exact hnot (List.mem_filter.mp hm)
+
+/-- **Initial population.** `People(n)` + `init_vals` (with any freshly constructed further states whose defaults yield
+    one value per agent) succeeds and produces a population that satisfies the bookkeeping invariant: `n` identifiers
+    `0 … n-1`, all active, all alive, nobody scheduled to die — so every theorem above applies to every history of a
+    freshly initialised sim. -/
+theorem C10_init (n : Nat) (extra : List Arr) (h1 : ∀ a ∈ extra, a.raw = [] ∧ a.lenUsed = 0 ∧ a.lenTot = 0)
+    (h2 : ∀ a ∈ extra, ∀ us, (defaultVals a us).length = us.length) :
+    ∃ p, init n extra = .ok p ∧ Inv p ∧ p.n = n ∧ p.auids = newIds 0 n ∧ p.ti = 0 ∧
+      (∀ u, u < n → p.alive.cell u = .bool true ∧ p.tiDead.cell u = .nan ∧ p.parent.cell u = .num (-1)) ∧
+      p.states.length = extra.length := by
+  let ids := newIds 0 n
+  let idVals : Rhs := .list (ids.map (fun (u : Nat) => Val.num (u : Rat)))
+  have hidok : rhsOk ids idVals = true := idVals_ok 0 n ids (by simp [ids])
+  have hparok : rhsOk ids (.list (List.replicate n (Val.num (-1)))) = true := by simp [rhsOk, ids]
+  have wfe : ∀ a ∈ extra, WF 0 a := fun a ha => ⟨(h1 a ha).2.1, by rw [(h1 a ha).2.2, (h1 a ha).1]; rfl, Nat.zero_le _⟩
+  obtain ⟨uid', hu, wu, _, _, _, cu⟩ := grow_spec' (fresh .index (.num (-1)) .unset) 0 n (wf_fresh ..) (some idVals) idVals rfl hidok
+  obtain ⟨parent', hp, wp, _, _, _, cp⟩ := grow_spec' (fresh .index (.num (-1)) .unset) 0 n (wf_fresh ..)
+    (some (.list (List.replicate n (Val.num (-1))))) _ rfl hparok
+  obtain ⟨alive', ha, wa, _, had, hak, ca⟩ := grow_spec' (fresh .bool (.bool false) (.const (.bool true))) 0 n (wf_fresh ..) none
+    (.scalar (.bool true)) (by simp [defaultRhs, fresh]) rfl
+  obtain ⟨td', ht, wt, _, htd, htk, ct⟩ := grow_spec' (fresh .float .nan .unset) 0 n (wf_fresh ..) none (.scalar .nan)
+    (by simp [defaultRhs, fresh]) rfl
+  obtain ⟨st', hst, hlen, wst, dst, _⟩ := growAll_spec 0 n extra wfe h2
+  simp only [Nat.zero_add] at wu wp wa wt wst cu cp ca ct
+  have hn : uid'.lenUsed = n := wu.used
+  refine ⟨(People.mk uid' uid' parent' ids alive' td' st' 0 [] []), ?_, ?_, hn, rfl, rfl, ?_, hlen⟩
+  · simp only [init, bind, Except.bind]
+    simp only [ids, idVals] at hu hp ha ht hst
+    simp only [hu, hp, ha, ht, hst]
+    rfl
+  · have hn' : People.n (People.mk uid' uid' parent' ids alive' td' st' 0 [] []) = n := hn
+    constructor
+    · rw [hn']; exact wu
+    · rw [hn']; exact wu
+    · rw [hn']; exact wp
+    · rw [hn']; exact wa
+    · rw [hn']; exact wt
+    · rw [hn']; exact wst
+    · exact dst
+    · rw [hn']; intro u hu'
+      show uid'.cell u = _
+      rw [cu u hu']
+      have := upd_new (fresh .index (.num (-1)) .unset).cell 0 n (rhsVals n idVals) (by simp [rhsVals, idVals, ids]) u hu'
+      simp only [Nat.zero_add] at this
+      rw [this, List.getElem_eq_iff]
+      have e : rhsVals n idVals = ids.map (fun (u : Nat) => Val.num (u : Rat)) := by simp [rhsVals, idVals, ids]
+      have hi' : u < ids.length := by simpa [ids] using hu'
+      rw [e, List.getElem?_map, List.getElem?_eq_getElem hi']
+      simp only [ids, newIds_getElem, Option.map_some, Nat.zero_add]
+    · rw [hn']; intro u hu'; have := ((mem_newIds 0 n u).mp hu').2; simpa using this
+    · exact newIds_nodup 0 n
+    · exact ⟨by show alive'.kind = _; rw [hak]; rfl, by show alive'.default = _; rw [had]; rfl⟩
+    · show td'.default = _; rw [htd]; rfl
+    · show td'.kind = _; rw [htk]; rfl
+    · rw [hn']; intro u hu'
+      show ∃ b, alive'.cell u = _
+      rw [ca u hu']
+      have := upd_new (fresh .bool (.bool false) (.const (.bool true))).cell 0 n (rhsVals n (.scalar (.bool true))) (by simp [rhsVals]) u hu'
+      simp only [Nat.zero_add] at this
+      rw [this]; exact ⟨true, by simp [rhsVals]⟩
+    · rw [hn']; intro u hu' hnot
+      exact absurd ((mem_newIds 0 n u).mpr ⟨Nat.zero_le _, by simpa using hu'⟩) hnot
+  · intro u hu'
+    refine ⟨?_, ?_, ?_⟩
+    · show alive'.cell u = _
+      rw [ca u hu']
+      have := upd_new (fresh .bool (.bool false) (.const (.bool true))).cell 0 n (rhsVals n (.scalar (.bool true))) (by simp [rhsVals]) u hu'
+      simp only [Nat.zero_add] at this
+      rw [this]; simp [rhsVals]
+    · show td'.cell u = _
+      rw [ct u hu']
+      have := upd_new (fresh .float .nan .unset).cell 0 n (rhsVals n (.scalar .nan)) (by simp [rhsVals]) u hu'
+      simp only [Nat.zero_add] at this
+      rw [this]; simp [rhsVals]
+    · show parent'.cell u = _
+      rw [cp u hu']
+      have := upd_new (fresh .index (.num (-1)) .unset).cell 0 n (rhsVals n (.list (List.replicate n (Val.num (-1))))) (by simp [rhsVals]) u hu'
+      simp only [Nat.zero_add] at this
+      rw [this]; simp [rhsVals]
+
+/-- non-vacuity: the model's initial population of 3 agents with one extra state, and a history on it -/
+example :
+    (init 3 [fresh .float .nan (.const (.num 1))]).toOption.map
+      (fun p => (p.n, p.auids, (run p [.requestDeath [2], .stepDie, .updateResults, .finishStep]).auids, p.states.map (·.lenUsed))) =
+    some (3, [0, 1, 2], [0, 1], [3]) := by
+  decide
+
 
 end StarsimModel.C10
